@@ -203,7 +203,9 @@ def gen_project(rnd, idx, forced=None):
         files.append((f, HDR + (DEFS + HOLDER if f == "f0.rs" else "use super::*;\n") + "".join(lst)))
     if "f0.rs" not in fns:
         files.append(("f0.rs", HDR + DEFS + HOLDER))
-    files.append(("cmds.rs", HDR + rg.command_src("anchor_%d" % idx, [("b", "Bar"), ("k", "Kind")], "Foo")))
+    if idx % 7 != 3:
+        files.append(("cmds.rs", HDR + rg.command_src("anchor_%d" % idx, [("b", "Bar"), ("k", "Kind")], "Foo")))
+    # every seventh project defines no command at all: its events still need their listeners
     # decoys: emit on non-documented receivers / non-literal names / in impl methods must not matter for ground truth; kept out.
     return files, truth, feats
 
